@@ -24,6 +24,7 @@
  Rn arg roles     : a variable named like a parameter of the callee is handed to that parameter (no exchanged roles).
  R9 path lookup  : each internal ROADM path is registered with the impairment profile looked up for the same (from, to) pair.
  R10 profile order: impairment profiles keep their listing order (first of a kind = default).
+ R11 ROADM input  : upstream walk sums losses; upstream ROADM target read for the degree the walk came from.
 """
 import ast
 
@@ -441,6 +442,14 @@ def r10_profile_order(ctx):
     ctx.need('R10.profile-order', 1)
 
 
+def r_roadm_input(ctx):
+    """R11: reference power at each ROADM ingress: upstream walk, losses summed, the upstream ROADM's target read for the degree the
+    walk came from, stored under this ROADM's ingress element"""
+    from .common import roadm_input_rule
+    roadm_input_rule(ctx, 'R11.roadm-input', 'the ROADM would report / equalise against a reference input power of another degree')
+    ctx.need('R11.roadm-input', 3)
+
+
 from ..memo import rule_for as _memo_rule
 
 RULES_MEMO = ('Rm.memo', _memo_rule('C06', 'the equalisation computed for another spectrum or target would be applied'))
@@ -450,4 +459,4 @@ from ..presence import rule_for as _presence_rule
 
 RULES_PRESENCE = ('Rp.presence', _presence_rule('C06', 'a ROADM target of exactly 0 dBm would be ignored and another target applied'))
 
-RULES = [('R6.stateless', r6_stateless), ('R1.formula', r1_formula), ('R2.policy', r2_policy), ('R4.one-policy', r4_one_policy), ('R5.design', r5_design), RULES_MEMO, RULES_PRESENCE, ('R7.channel-order', r7_channel_order), ('Rk.field-key', rk_field_key), ('Rx.export-keys', rx_export_keys), ('Re.for-each', re_foreach), ('R8.mode-copy', r_mode_copy), ('Rn.arg-roles', rn_arg_roles), ('R9.path-lookup', r_path_lookup), ('R10.profile-order', r10_profile_order)]
+RULES = [('R6.stateless', r6_stateless), ('R1.formula', r1_formula), ('R2.policy', r2_policy), ('R4.one-policy', r4_one_policy), ('R5.design', r5_design), RULES_MEMO, RULES_PRESENCE, ('R7.channel-order', r7_channel_order), ('Rk.field-key', rk_field_key), ('Rx.export-keys', rx_export_keys), ('Re.for-each', re_foreach), ('R8.mode-copy', r_mode_copy), ('Rn.arg-roles', rn_arg_roles), ('R9.path-lookup', r_path_lookup), ('R10.profile-order', r10_profile_order), ('R11.roadm-input', r_roadm_input)]
